@@ -5,15 +5,46 @@ import Mathlib.Algebra.Order.AbsoluteValue.Basic
 import Mathlib.Tactic.Positivity
 import Mathlib.LinearAlgebra.Matrix.Notation
 import Mathlib.Tactic.FinCases
+import Mathlib.Analysis.SpecialFunctions.Complex.LogBounds
 
 /-!
 # C18 — analysis theorems (second pass)
+
+The first pass (`Props/C18.lean`) proved the one-step relations of the two time loops, the
+steady certificate, the observation branches and the `PDEModel` dispatch.  This file says what those
+mean, about the **same executable definitions** of `Model/C18.lean` (`solveTime`, `Steady.solve`,
+`observeTime`, `observeSteady`, `pdeModelForward`, `gradientFunc`, `Method.ofString`; the driver
+runs them at `R = Rat`, the theorems hold for every commutative ring / ordered field / over `ℝ` as
+stated):
+
+1. closed forms of the levels for constant-coefficient linear systems on uniform grids
+   (`(I + dt A)^k`, `(I − dt A)^k` as Mathlib matrix powers), the scalar test equation: amplification
+   factors, the forward stability region `|1 + dt λ| ≤ 1` (an *iff*), unconditional stability of the
+   backward method for `λ ≤ 0`;
+2. linear PDE forms (operator independent of the parameter, source / initial condition / right-hand
+   side linear in it) give levels, steady solutions and whole `PDEModel.forward` pipelines that are
+   linear in the parameter; the Jacobian is the pipeline applied to the unit vectors;
+3. the sensitivity formula `du/ds = A⁻¹(b' − A' u)` for `Steady.solve` over `ℝ` by implicit
+   differentiation (differentiability of `u` is proved), for linear observations, and "what
+   `_gradient_func` returns is the derivative" for a Jacobian supplied column-wise in this way;
+4. the time-dependent pipeline of `PDEModel.forward` spelled out; `time_obs='final'` ↦ last level index;
+   observed column `b` = level index of `time_obs[b]`; `time_obs='all'` ↦ column `j` = level `j`;
+5. the `method` setter on every string (through core's `String.toList_map`, so about the model's
+   own `Method.ofString`), case variants are accepted and then refused loudly by `solve`;
+6. convergence of both methods to `u0·e^{λT}` for the test equation as the grid is refined (`ℝ`).
+
+New notation: `toM n A`, `toV n v` (Proofs/C18_analysis: leading block of a model matrix / vector as a
+Mathlib `Matrix (Fin n) (Fin n) R` / `Fin n → R`; `ofM`, `ofV` the converse), `lvl n levels k` (level
+`k` as a Mathlib vector), `uniformGrid t0 dt N`, `LinearInParam`, `Nonsing`, `levelOf`, `steadyPDE` /
+`timePDE` / `levelsToRows` / `vecL` (the driver's `pipes` / `pipet` objects, `levelsToU`, `vecL` for an
+arbitrary ring).
 -/
 open Finset Matrix
 
 set_option linter.unusedSectionVars false
 set_option linter.unusedVariables false
 set_option linter.unusedSimpArgs false
+set_option autoImplicit false
 
 namespace CuqiVerif.C18
 
@@ -28,6 +59,12 @@ def lvl (n : ℕ) (levels : List (Array R)) (k : ℕ) : Fin n → R := fun i => 
 def UniformStep (ts : List R) (dt : R) : Prop :=
   ∀ k, k + 1 < ts.length → ts.getD (k + 1) 0 - ts.getD k 0 = dt
 
+/-- **euler_forward_closed_form.**  What "solves the discretised equations" means for a linear system
+    `u' = A u + b` with constant `A`, `b` (the form returns the same operator and source at the grid
+    times at which the forward loop assembles) on a uniform grid with step `dt`: the stored levels of
+    the model's `solveTime … forward` are the textbook closed form
+    `u_k = (I + dt·A)^k u_0 + Σ_{j<k} (I + dt·A)^j (dt·b)` (Mathlib matrices; `lvl n levels k` is column
+    `k` of the returned array), with `u_0` the form's initial condition (`level_zero_initial_condition`). -/
 theorem euler_forward_closed_form {I : Type} (n : ℕ) (form : R → Form R)
     (solver : Mat R → Vec R → SolverRet (Vec R) I) (ts : List R) (levels : List (Array R))
     (info : Option (List I)) (h : solveTime n .forward form solver ts = .ok (levels, info))
@@ -326,6 +363,733 @@ example : ¬ ∃ C, ∀ N levels info, solveTime 1 .forward testForm divSolver (
   rw [forward_euler_stable_iff testForm divSolver 0 1 (-3) 4 (by norm_num) (fun _ => ⟨rfl, rfl, rfl⟩)]
   norm_num [abs_le]
 
+/-! ## 2. linearity: linear PDE forms give a linear model -/
+
+section linear
+variable {P : Type} [AddCommMonoid P] [Module R P]
+
+/-- a **linear** time-dependent PDE form: the operator does not depend on the parameter; source and
+    initial condition are linear in it (only the entries below `n`, the ones that are read, matter) -/
+structure LinearInParam (n : ℕ) (formP : P → R → Form R) : Prop where
+  op_indep : ∀ p q t i j, i < n → j < n → (formP p t).op i j = (formP q t).op i j
+  src_lin : ∀ (c : R) p q t i, i < n → (formP (c • p + q) t).src i = c * (formP p t).src i + (formP q t).src i
+  ic_lin : ∀ (c : R) p q t i, i < n → (formP (c • p + q) t).ic i = c * (formP p t).ic i + (formP q t).ic i
+
+/-- the leading `n × n` system `M x = 0` has only the trivial solution (below `n`) -/
+def Nonsing (n : ℕ) (M : Mat R) : Prop :=
+  ∀ x : Vec R, (∀ i, i < n → ∑ j ∈ range n, M i j * x j = 0) → ∀ i, i < n → x i = 0
+
+lemma sum_lincomb (n : ℕ) (Apq Ap Aq : ℕ → R) (c : R) (x a b : ℕ → R)
+    (h1 : ∀ j, j < n → Apq j = Ap j) (h2 : ∀ j, j < n → Apq j = Aq j)
+    (hx : ∀ j, j < n → x j = c * a j + b j) :
+    ∑ j ∈ range n, Apq j * x j = c * ∑ j ∈ range n, Ap j * a j + ∑ j ∈ range n, Aq j * b j := by
+  rw [Finset.mul_sum, ← Finset.sum_add_distrib]
+  refine Finset.sum_congr rfl fun j hj => ?_
+  have hj' := mem_range.mp hj
+  rw [hx j hj', ← h1 j hj']
+  have := h2 j hj'
+  rw [h1 j hj'] at this
+  rw [h1 j hj', ← this]
+  ring
+
+/-- **forward_levels_linear.**  For a linear form every stored forward-Euler level is a linear
+    function of the parameter: `u_k(c·p + q) = c·u_k(p) + u_k(q)` — every grid, every dimension. -/
+theorem forward_levels_linear {I : Type} (n : ℕ) (formP : P → R → Form R) (hlin : LinearInParam n formP)
+    (solver : Mat R → Vec R → SolverRet (Vec R) I) (ts : List R) (c : R) (p q : P)
+    (Lpq Lp Lq : List (Array R)) (i1 i2 i3 : Option (List I))
+    (hpq : solveTime n .forward (formP (c • p + q)) solver ts = .ok (Lpq, i1))
+    (hp : solveTime n .forward (formP p) solver ts = .ok (Lp, i2))
+    (hq : solveTime n .forward (formP q) solver ts = .ok (Lq, i3))
+    (k : ℕ) (hk : k < ts.length) (i : ℕ) (hi : i < n) :
+    rd (Lpq.getD k #[]) i = c * rd (Lp.getD k #[]) i + rd (Lq.getD k #[]) i := by
+  induction k generalizing i with
+  | zero =>
+    rw [level_zero_ic n _ _ solver ts Lpq i1 hpq i hi, level_zero_ic n _ _ solver ts Lp i2 hp i hi,
+      level_zero_ic n _ _ solver ts Lq i3 hq i hi]
+    exact hlin.ic_lin c p q _ i hi
+  | succ k ih =>
+    have ih' := fun j hj => ih (by omega) j hj
+    rw [euler_forward_recurrence n _ solver ts Lpq i1 hpq k hk i hi,
+      euler_forward_recurrence n _ solver ts Lp i2 hp k hk i hi,
+      euler_forward_recurrence n _ solver ts Lq i3 hq k hk i hi,
+      ih' i hi, hlin.src_lin c p q _ i hi,
+      sum_lincomb n _ _ _ c _ _ _ (fun j hj => hlin.op_indep (c • p + q) p _ i j hi hj)
+        (fun j hj => hlin.op_indep (c • p + q) q _ i j hi hj) ih']
+    ring
+
+/-- from `x = dt·A x` to the coded homogeneous backward system `(I − dt·A) x = 0` -/
+lemma bwd_homogeneous (n : ℕ) (dt : R) (f : Form R) (x : Vec R)
+    (hx : ∀ i, i < n → x i = dt * ∑ j ∈ range n, f.op i j * x j) (i : ℕ) (hi : i < n) :
+    ∑ j ∈ range n, bwdMat dt f i j * x j = 0 := by
+  have e : ∀ j ∈ range n, bwdMat dt f i j * x j = (if i = j then x j else 0) - dt * (f.op i j * x j) := by
+    intro j _
+    by_cases hij : i = j <;> simp [bwdMat, eye, hij] <;> ring
+  rw [Finset.sum_congr rfl e, Finset.sum_sub_distrib, ← Finset.mul_sum]
+  simp [hi]
+  rw [← hx i hi, sub_self]
+
+/-- **backward_levels_linear.**  Same for the backward method, with a correct linear solver and
+    uniquely solvable step systems `I − Δt_k A(t_{k+1})` (otherwise "the" solution is not a function
+    of the data and linearity is meaningless). -/
+theorem backward_levels_linear {I : Type} (n : ℕ) (formP : P → R → Form R) (hlin : LinearInParam n formP)
+    (solver : Mat R → Vec R → SolverRet (Vec R) I) (hs : SolverCorrect n solver) (ts : List R)
+    (c : R) (p q : P)
+    (hns : ∀ k, k + 1 < ts.length →
+      Nonsing n (bwdMat (ts.getD (k + 1) 0 - ts.getD k 0) (formP p (ts.getD (k + 1) 0))))
+    (Lpq Lp Lq : List (Array R)) (i1 i2 i3 : Option (List I))
+    (hpq : solveTime n .backward (formP (c • p + q)) solver ts = .ok (Lpq, i1))
+    (hp : solveTime n .backward (formP p) solver ts = .ok (Lp, i2))
+    (hq : solveTime n .backward (formP q) solver ts = .ok (Lq, i3))
+    (k : ℕ) (hk : k < ts.length) (i : ℕ) (hi : i < n) :
+    rd (Lpq.getD k #[]) i = c * rd (Lp.getD k #[]) i + rd (Lq.getD k #[]) i := by
+  induction k generalizing i with
+  | zero =>
+    rw [level_zero_ic n _ _ solver ts Lpq i1 hpq i hi, level_zero_ic n _ _ solver ts Lp i2 hp i hi,
+      level_zero_ic n _ _ solver ts Lq i3 hq i hi]
+    exact hlin.ic_lin c p q _ i hi
+  | succ k ih =>
+    have ih' := fun j hj => ih (by omega) j hj
+    set w : Vec R := fun j => rd (Lpq.getD (k + 1) #[]) j - (c * rd (Lp.getD (k + 1) #[]) j + rd (Lq.getD (k + 1) #[]) j) with hw
+    have hwz : ∀ i, i < n → w i = 0 := by
+      refine hns k hk w (bwd_homogeneous n _ _ w ?_)
+      intro i hi
+      have e1 := euler_backward_recurrence n _ solver hs ts Lpq i1 hpq k hk i hi
+      have e2 := euler_backward_recurrence n _ solver hs ts Lp i2 hp k hk i hi
+      have e3 := euler_backward_recurrence n _ solver hs ts Lq i3 hq k hk i hi
+      rw [hlin.src_lin c p q _ i hi] at e1
+      have s1 : ∑ j ∈ range n, (formP p (ts.getD (k + 1) 0)).op i j * w j
+          = ∑ j ∈ range n, (formP (c • p + q) (ts.getD (k + 1) 0)).op i j * rd (Lpq.getD (k + 1) #[]) j
+            - (c * ∑ j ∈ range n, (formP p (ts.getD (k + 1) 0)).op i j * rd (Lp.getD (k + 1) #[]) j
+              + ∑ j ∈ range n, (formP q (ts.getD (k + 1) 0)).op i j * rd (Lq.getD (k + 1) #[]) j) := by
+        rw [Finset.mul_sum, ← Finset.sum_add_distrib, ← Finset.sum_sub_distrib]
+        refine Finset.sum_congr rfl fun j hj => ?_
+        have hj' := mem_range.mp hj
+        rw [hlin.op_indep (c • p + q) p _ i j hi hj', hlin.op_indep q p _ i j hi hj', hw]
+        ring
+      rw [s1]
+      simp only [hw]
+      rw [e1, e2, e3, ih' i hi]
+      ring
+    have := hwz i hi
+    simp only [hw] at this
+    linear_combination this
+
+/-! ### the Jacobian of a linear model is the pipeline applied to the unit vectors -/
+
+/-- a functional on `R^d` that respects linear combinations is determined by its values on the unit
+    vectors `e_k = Pi.single k 1` -/
+lemma lin_functional_eq_sum {d : ℕ} (F : (Fin d → R) → R)
+    (hF : ∀ (c : R) p q, F (c • p + q) = c * F p + F q) (p : Fin d → R) :
+    F p = ∑ k, p k * F (Pi.single k 1) := by
+  have h0 : F 0 = 0 := by
+    have := hF 1 0 0
+    simp only [one_smul, add_zero, one_mul] at this
+    exact left_eq_add.mp this
+  have key : ∀ s : Finset (Fin d), F (∑ k ∈ s, p k • Pi.single k (1 : R)) = ∑ k ∈ s, p k * F (Pi.single k 1) := by
+    intro s
+    induction s using Finset.induction_on with
+    | empty => simpa using h0
+    | insert a s ha ih => rw [Finset.sum_insert ha, Finset.sum_insert ha, hF, ih]
+  have hp : p = ∑ k, p k • Pi.single k (1 : R) := by
+    funext j
+    simp [Finset.sum_apply, Pi.single_apply]
+  conv_lhs => rw [hp]
+  exact key _
+
+/-- entry `i` of level `k` of a `solve()` result (`0` if the solve was refused) -/
+def levelOf {I : Type} (r : Except Err (List (Array R) × Option (List I))) (k i : ℕ) : R :=
+  match r with
+  | .ok (l, _) => rd (l.getD k #[]) i
+  | .error _ => 0
+
+/-- **forward_levels_jacobian_unit_vectors.**  Linear form, parameter in `R^d`, forward method: every
+    entry of every level is `Σ_j p_j · (that entry for the unit vector e_j)`; i.e. the Jacobian of the
+    solution map is obtained by running the solver on the `d` unit vectors — which is how a
+    `jacobian_wrt_parameter` of a linear `PDEModel` can be assembled (C07/C12: the model *is* the
+    linear model with that matrix). -/
+theorem forward_levels_jacobian_unit_vectors {I : Type} {d : ℕ} (n : ℕ) (formP : (Fin d → R) → R → Form R)
+    (hlin : LinearInParam n formP) (solver : Mat R → Vec R → SolverRet (Vec R) I) (ts : List R)
+    (hts : ts ≠ []) (p : Fin d → R) (k : ℕ) (hk : k < ts.length) (i : ℕ) (hi : i < n) :
+    levelOf (solveTime n .forward (formP p) solver ts) k i
+      = ∑ j, p j * levelOf (solveTime n .forward (formP (Pi.single j 1)) solver ts) k i := by
+  refine lin_functional_eq_sum (fun p => levelOf (solveTime n .forward (formP p) solver ts) k i) ?_ p
+  intro c p q
+  obtain ⟨L1, h1⟩ := solveTime_forward_ok n (formP (c • p + q)) solver ts hts
+  obtain ⟨L2, h2⟩ := solveTime_forward_ok n (formP p) solver ts hts
+  obtain ⟨L3, h3⟩ := solveTime_forward_ok n (formP q) solver ts hts
+  simp only [h1, h2, h3, levelOf]
+  exact forward_levels_linear n formP hlin solver ts c p q L1 L2 L3 none none none h1 h2 h3 k hk i hi
+
+/-- **backward_levels_jacobian_unit_vectors.**  Same for the backward method (correct solver, uniquely
+    solvable step systems, no solve refused). -/
+theorem backward_levels_jacobian_unit_vectors {I : Type} {d : ℕ} (n : ℕ) (formP : (Fin d → R) → R → Form R)
+    (hlin : LinearInParam n formP) (solver : Mat R → Vec R → SolverRet (Vec R) I)
+    (hs : SolverCorrect n solver) (ts : List R)
+    (hns : ∀ p k, k + 1 < ts.length →
+      Nonsing n (bwdMat (ts.getD (k + 1) 0 - ts.getD k 0) (formP p (ts.getD (k + 1) 0))))
+    (hok : ∀ p, ∃ L info, solveTime n .backward (formP p) solver ts = .ok (L, info))
+    (p : Fin d → R) (k : ℕ) (hk : k < ts.length) (i : ℕ) (hi : i < n) :
+    levelOf (solveTime n .backward (formP p) solver ts) k i
+      = ∑ j, p j * levelOf (solveTime n .backward (formP (Pi.single j 1)) solver ts) k i := by
+  refine lin_functional_eq_sum (fun p => levelOf (solveTime n .backward (formP p) solver ts) k i) ?_ p
+  intro c p q
+  obtain ⟨L1, j1, h1⟩ := hok (c • p + q)
+  obtain ⟨L2, j2, h2⟩ := hok p
+  obtain ⟨L3, j3, h3⟩ := hok q
+  simp only [h1, h2, h3, levelOf]
+  exact backward_levels_linear n formP hlin solver hs ts c p q (hns p) L1 L2 L3 j1 j2 j3 h1 h2 h3 k hk i hi
+
+/-! ### steady state -/
+
+/-- **steady_solution_linear.**  Steady-state problem with an operator that does not depend on the
+    parameter and a right-hand side linear in it, correct solver, non-singular operator: the solution
+    is linear in the parameter. -/
+theorem steady_solution_linear {I : Type} (n : ℕ) (st : Steady P R I) (hs : SolverCorrect n st.solver)
+    (hop : ∀ p q i j, i < n → j < n → (st.form p).op i j = (st.form q).op i j)
+    (hrhs : ∀ (c : R) p q i, i < n → (st.form (c • p + q)).rhs i = c * (st.form p).rhs i + (st.form q).rhs i)
+    (c : R) (p q : P) (hns : Nonsing n (st.form p).op)
+    (upq up uq : Vec R) (i1 i2 i3 : Option (List I))
+    (hpq : (st.assemble (c • p + q)).solve = .ok (upq, i1))
+    (hp : (st.assemble p).solve = .ok (up, i2)) (hq : (st.assemble q).solve = .ok (uq, i3))
+    (i : ℕ) (hi : i < n) : upq i = c * up i + uq i := by
+  have hz := hns (fun j => upq j - (c * up j + uq j)) ?_ i hi
+  · linear_combination hz
+  · intro i hi
+    have e1 := steady_solves n st hs _ upq i1 hpq i hi
+    have e2 := steady_solves n st hs _ up i2 hp i hi
+    have e3 := steady_solves n st hs _ uq i3 hq i hi
+    rw [hrhs c p q i hi] at e1
+    have : ∑ j ∈ range n, (st.form p).op i j * (upq j - (c * up j + uq j))
+        = ∑ j ∈ range n, (st.form (c • p + q)).op i j * upq j
+          - (c * ∑ j ∈ range n, (st.form p).op i j * up j + ∑ j ∈ range n, (st.form q).op i j * uq j) := by
+      rw [Finset.mul_sum, ← Finset.sum_add_distrib, ← Finset.sum_sub_distrib]
+      refine Finset.sum_congr rfl fun j hj => ?_
+      have hj' := mem_range.mp hj
+      rw [hop (c • p + q) p i j hi hj', hop q p i j hi hj']
+      ring
+    rw [this, e1, e2, e3]
+    ring
+
+/-- the `SteadyStateLinearPDE` object inside a `PDEModel`, as the driver builds it (op `pipes`; this
+    is that definition for an arbitrary ring and parameter type): the solution is handed to `observe`
+    as the array of its first `n` entries -/
+def steadyPDE {I : Type} [DecidableEq R] (n : ℕ) (st : Steady P R I) (g : Grids R)
+    (interp : List R → List R → List R → Except Err (List R)) (om : ObsMap R) :
+    PDEObj P (List R) (Arr R) I :=
+  { solveFor := fun x => ((st.assemble x).solve).map fun r => (vecL n r.1, r.2)
+    observe := fun u => observeSteady g u interp om }
+
+/-- the steady pipeline of `PDEModel.forward`, spelled out -/
+theorem steady_pipeline_spelled_out {I : Type} [DecidableEq R] (n : ℕ) (st : Steady P R I) (g : Grids R)
+    (interp : List R → List R → List R → Except Err (List R)) (om : ObsMap R) (x : P) :
+    pdeModelForward (steadyPDE n st g interp om) x =
+      match unpack (st.solver (st.form x).op (st.form x).rhs) with
+      | .error e => .error e
+      | .ok (u, _) => observeSteady g (vecL n u) interp om := by
+  simp only [pdeModelForward, steadyPDE, Steady.assemble, Steady.solve]
+  cases unpack (st.solver (st.form x).op (st.form x).rhs) with
+  | error e => rfl
+  | ok r => rfl
+
+lemma map_ldot_lincomb (M : List (List R)) (c : R) (a b : List R) (hab : a.length = b.length) :
+    M.map (fun r => ldot r (List.zipWith (fun x y => c * x + y) a b))
+      = List.zipWith (fun x y => c * x + y) (M.map fun r => ldot r a) (M.map fun r => ldot r b) := by
+  induction M with
+  | nil => rfl
+  | cons r M ih => simp [ih, ldot_lincomb r c a b hab]
+
+/-- **steady_pipeline_linear.**  `PDEModel.forward` of a linear steady-state PDE observed on the
+    solution grid through a linear observation map `u ↦ M @ u` is a linear map of the parameter:
+    `forward(c·p + q) = c·forward(p) + forward(q)`, entry by entry of the returned arrays. -/
+theorem steady_pipeline_linear {I : Type} [DecidableEq R] (n : ℕ) (st : Steady P R I)
+    (hs : SolverCorrect n st.solver)
+    (hop : ∀ p q i j, i < n → j < n → (st.form p).op i j = (st.form q).op i j)
+    (hrhs : ∀ (c : R) p q i, i < n → (st.form (c • p + q)).rhs i = c * (st.form p).rhs i + (st.form q).rhs i)
+    (g : Grids R) (hg : g.equal = true) (interp : List R → List R → List R → Except Err (List R))
+    (M : List (List R)) (hM : ∀ r ∈ M, r.length = n)
+    (c : R) (p q : P) (hns : Nonsing n (st.form p).op)
+    (hok : ∀ x, ∃ u info, (st.assemble x).solve = .ok (u, info)) :
+    ∃ yp yq : List R,
+      pdeModelForward (steadyPDE n st g interp (.left M)) p = .ok (.vec yp)
+      ∧ pdeModelForward (steadyPDE n st g interp (.left M)) q = .ok (.vec yq)
+      ∧ pdeModelForward (steadyPDE n st g interp (.left M)) (c • p + q)
+          = .ok (.vec (List.zipWith (fun a b => c * a + b) yp yq))
+      ∧ yp.length = M.length ∧ yq.length = M.length := by
+  obtain ⟨upq, i1, hpq⟩ := hok (c • p + q)
+  obtain ⟨up, i2, hp⟩ := hok p
+  obtain ⟨uq, i3, hq⟩ := hok q
+  have hall : ∀ u : Vec R, M.all (fun r => r.length == (vecL n u).length) = true := by
+    intro u
+    simp only [List.all_eq_true, vecL_length, beq_iff_eq]
+    exact hM
+  have hfw : ∀ x u info, (st.assemble x).solve = .ok (u, info) →
+      pdeModelForward (steadyPDE n st g interp (.left M)) x = .ok (.vec (M.map fun r => ldot r (vecL n u))) := by
+    intro x u info hx
+    simp only [pdeModelForward, steadyPDE, hx, Except.map, observeSteady, hg, if_true, ObsMap.apply, hall]
+  have hlinu : vecL n upq = List.zipWith (fun a b => c * a + b) (vecL n up) (vecL n uq) := by
+    rw [← vecL_lincomb]
+    exact vecL_congr n _ _ fun i hi =>
+      steady_solution_linear n st hs hop hrhs c p q hns upq up uq i1 i2 i3 hpq hp hq i hi
+  refine ⟨_, _, hfw p up i2 hp, hfw q uq i3 hq, ?_, by simp, by simp⟩
+  rw [hfw _ upq i1 hpq, hlinu, map_ldot_lincomb M c _ _ (by simp)]
+
+/-! ### non-vacuity of section 2 -/
+
+/-- a linear heat-type form with parameter `p ∈ ℚ²`: fixed operator, source `p`, initial condition `2p` -/
+def linHeatForm (p : Fin 2 → ℚ) (_ : ℚ) : Form ℚ := ⟨ofM heatA, ofV p, ofV fun i => 2 * p i⟩
+
+lemma linHeatForm_linear : LinearInParam 2 linHeatForm where
+  op_indep := fun _ _ _ _ _ _ _ => rfl
+  src_lin := fun c p q t i hi => by simp [linHeatForm, ofV, hi]
+  ic_lin := fun c p q t i hi => by simp [linHeatForm, ofV, hi]; ring
+
+example (p : Fin 2 → ℚ) (k : ℕ) (hk : k < 4) (i : ℕ) (hi : i < 2) :
+    levelOf (solveTime 2 .forward (linHeatForm p) divSolver (uniformGrid 0 (1/4) 3)) k i
+      = ∑ j, p j * levelOf (solveTime 2 .forward (linHeatForm (Pi.single j 1)) divSolver (uniformGrid 0 (1/4) 3)) k i :=
+  forward_levels_jacobian_unit_vectors 2 linHeatForm linHeatForm_linear divSolver _ (uniformGrid_ne_nil _ _ _) p k
+    (by simpa using hk) i hi
+
+/-- scalar linear decay form with parameter `p ∈ ℚ`: `u' = -3u + p`, `u(0) = p` -/
+def linDecayForm (p : ℚ) (_ : ℚ) : Form ℚ := ⟨fun _ _ => -3, fun _ => p, fun _ => p⟩
+
+lemma linDecayForm_linear : LinearInParam 1 linDecayForm where
+  op_indep := fun _ _ _ _ _ _ _ => rfl
+  src_lin := fun c p q t i hi => by simp [linDecayForm]
+  ic_lin := fun c p q t i hi => by simp [linDecayForm]
+
+lemma linDecay_ok (p : ℚ) : ∃ L info, solveTime 1 .backward (linDecayForm p) divSolver [0, 1/2, 2] = .ok (L, info) := by
+  obtain ⟨⟨L, info⟩, h⟩ := ok_of_isOk (solveTime 1 .backward (linDecayForm p) divSolver [0, 1/2, 2])
+    (by norm_num [solveTime, bwdLevels, divSolver, unpack, bwdMat, bwdRhs, linDecayForm, eye, rd, tab,
+      Except.isOk, Except.toBool])
+  exact ⟨L, info, h⟩
+
+lemma nonsing_one (a : ℚ) (ha : a ≠ 0) (M : Mat ℚ) (hM : M 0 0 = a) : Nonsing 1 M := by
+  intro x h i hi
+  have hi0 : i = 0 := by omega
+  subst hi0
+  have := h 0 (by norm_num)
+  simp only [Finset.sum_range_one, hM] at this
+  exact (mul_eq_zero.mp this).resolve_left ha
+
+example (c p q : ℚ) : ∃ L1 L2 L3 : List (Array ℚ), ∀ k, k < 3 →
+    rd (L1.getD k #[]) 0 = c * rd (L2.getD k #[]) 0 + rd (L3.getD k #[]) 0 := by
+  obtain ⟨L1, j1, h1⟩ := linDecay_ok (c • p + q)
+  obtain ⟨L2, j2, h2⟩ := linDecay_ok p
+  obtain ⟨L3, j3, h3⟩ := linDecay_ok q
+  refine ⟨L1, L2, L3, fun k hk => backward_levels_linear 1 linDecayForm linDecayForm_linear divSolver
+    divSolver_correct [0, 1/2, 2] c p q ?_ L1 L2 L3 j1 j2 j3 h1 h2 h3 k (by simpa using hk) 0 (by norm_num)⟩
+  intro k hk
+  have hk' : k = 0 ∨ k = 1 := by simp at hk; omega
+  rcases hk' with rfl | rfl
+  · exact nonsing_one (5/2) (by norm_num) _ (by norm_num [bwdMat, eye, linDecayForm])
+  · exact nonsing_one (11/2) (by norm_num) _ (by norm_num [bwdMat, eye, linDecayForm])
+
+/-- steady: `2u = 3p`, observed through `u ↦ 5u` on the solution grid -/
+example (c p q : ℚ) :
+    let st : Steady ℚ ℚ ℚ := { form := fun p => ⟨fun _ _ => 2, fun _ => 3 * p⟩, solver := divSolver }
+    let g : Grids ℚ := Grids.init (some [0]) none
+    ∃ yp yq : List ℚ,
+      pdeModelForward (steadyPDE 1 st g (tableInterp1 []) (.left [[5]])) p = .ok (.vec yp)
+      ∧ pdeModelForward (steadyPDE 1 st g (tableInterp1 []) (.left [[5]])) q = .ok (.vec yq)
+      ∧ pdeModelForward (steadyPDE 1 st g (tableInterp1 []) (.left [[5]])) (c • p + q)
+          = .ok (.vec (List.zipWith (fun a b => c * a + b) yp yq))
+      ∧ yp.length = 1 ∧ yq.length = 1 := by
+  intro st g
+  exact steady_pipeline_linear 1 st divSolver_correct (fun _ _ _ _ _ _ => rfl)
+    (fun c p q i hi => by simp [st]; ring) g (grid_obs_defaults_to_grid_sol _).2 _ [[5]] (by simp) c p q
+    (nonsing_one 2 (by norm_num) _ rfl)
+    (fun x => ⟨_, _, by simp [st, Steady.assemble, Steady.solve, divSolver, unpack]; exact ⟨rfl, rfl⟩⟩)
+
+end linear
+
+/-! ## 3. the gradient: sensitivity of the steady-state solution (implicit differentiation over ℝ)
+
+`γ : ℝ → P` is any differentiable curve of parameters, e.g. `γ s = Function.update p i s` (the
+`i`-th partial derivative at `s0 = p i`) or `γ s = p + s • d` (a directional derivative). -/
+
+section sensitivity
+open Filter Topology
+
+/-- **steady_sensitivity.**  Let the steady-state object of the model (`Steady.assemble`, `Steady.solve`
+    with a correct linear solver) return `u(s)` for the parameters `γ(s)`, `s` near `s0`; let the
+    entries of the assembled operator `A(γ(s))` and right-hand side `b(γ(s))` be differentiable at
+    `s0` with derivatives `A'`, `b'`, and `A(γ(s0))` be non-singular.  Then the solution is
+    differentiable at `s0` (this is *proved*, not assumed) and
+    `du/ds = A⁻¹ (b' − A' u)` — the sensitivity formula. -/
+theorem steady_sensitivity {P I : Type} (n : ℕ) (st : Steady P ℝ I) (hs : SolverCorrect n st.solver)
+    (γ : ℝ → P) (s0 : ℝ) (u : ℝ → Vec ℝ) (info : ℝ → Option (List I))
+    (hsolve : ∀ᶠ s in 𝓝 s0, (st.assemble (γ s)).solve = .ok (u s, info s))
+    (A' : Matrix (Fin n) (Fin n) ℝ) (b' : Fin n → ℝ)
+    (hA : ∀ i j : Fin n, HasDerivAt (fun s => (st.form (γ s)).op i j) (A' i j) s0)
+    (hb : ∀ i : Fin n, HasDerivAt (fun s => (st.form (γ s)).rhs i) (b' i) s0)
+    (hdet : (toM n (st.form (γ s0)).op).det ≠ 0) (i : Fin n) :
+    HasDerivAt (fun s => u s i)
+      (((toM n (st.form (γ s0)).op)⁻¹ *ᵥ (b' - A' *ᵥ toV n (u s0))) i) s0 := by
+  refine hasDerivAt_linear_solve (fun s => toM n (st.form (γ s)).op) (fun s => toV n (st.form (γ s)).rhs)
+    (fun s => toV n (u s)) A' b' s0 hA hb ?_ hdet i
+  filter_upwards [hsolve] with s hsol
+  funext i
+  rw [← sum_range_eq_mulVec]
+  exact steady_solves n st hs (γ s) (u s) (info s) hsol i i.isLt
+
+/-- **steady_observed_sensitivity.**  …hence every linear observation `y = M u` of the solution
+    (restriction to nodes, `M @ u`, scaling) has derivative `M A⁻¹ (b' − A' u)`:
+    "the derivative of the observed solution w.r.t. the parameter is obs(A⁻¹(∂b − ∂A u))". -/
+theorem steady_observed_sensitivity {P I : Type} (n m : ℕ) (st : Steady P ℝ I)
+    (hs : SolverCorrect n st.solver) (γ : ℝ → P) (s0 : ℝ) (u : ℝ → Vec ℝ) (info : ℝ → Option (List I))
+    (hsolve : ∀ᶠ s in 𝓝 s0, (st.assemble (γ s)).solve = .ok (u s, info s))
+    (A' : Matrix (Fin n) (Fin n) ℝ) (b' : Fin n → ℝ)
+    (hA : ∀ i j : Fin n, HasDerivAt (fun s => (st.form (γ s)).op i j) (A' i j) s0)
+    (hb : ∀ i : Fin n, HasDerivAt (fun s => (st.form (γ s)).rhs i) (b' i) s0)
+    (hdet : (toM n (st.form (γ s0)).op).det ≠ 0) (M : Matrix (Fin m) (Fin n) ℝ) (i : Fin m) :
+    HasDerivAt (fun s => (M *ᵥ toV n (u s)) i)
+      ((M *ᵥ ((toM n (st.form (γ s0)).op)⁻¹ *ᵥ (b' - A' *ᵥ toV n (u s0)))) i) s0 := by
+  simp only [Matrix.mulVec, dotProduct]
+  refine HasDerivAt.fun_sum fun j _ => ?_
+  exact (steady_sensitivity n st hs γ s0 u info hsolve A' b' hA hb hdet j).const_mul (M i j)
+
+/-- **steady_gradient_is_derivative.**  Formal content of "`PDEModel.gradient` is the gradient of the
+    assemble–solve–observe pipeline" for a Jacobian supplied through `jacobian_wrt_parameter`: if
+    column `k` of the supplied `J` is the sensitivity `M A⁻¹(∂_k b − ∂_k A u)` along the `k`-th
+    parameter curve, then entry `k` of what `_gradient_func` returns (`direction @ J`) **is** the
+    derivative of `s ↦ ⟨direction, observed solution(γ(s))⟩` at `s0`. -/
+theorem steady_gradient_is_derivative {P I : Type} (n m : ℕ) (st : Steady P ℝ I)
+    (hs : SolverCorrect n st.solver) (γ : ℝ → P) (s0 : ℝ) (u : ℝ → Vec ℝ) (info : ℝ → Option (List I))
+    (hsolve : ∀ᶠ s in 𝓝 s0, (st.assemble (γ s)).solve = .ok (u s, info s))
+    (A' : Matrix (Fin n) (Fin n) ℝ) (b' : Fin n → ℝ)
+    (hA : ∀ i j : Fin n, HasDerivAt (fun s => (st.form (γ s)).op i j) (A' i j) s0)
+    (hb : ∀ i : Fin n, HasDerivAt (fun s => (st.form (γ s)).rhs i) (b' i) s0)
+    (hdet : (toM n (st.form (γ s0)).op).det ≠ 0) (M : Matrix (Fin m) (Fin n) ℝ)
+    (J : Vec ℝ → Mat ℝ) (wrt : Vec ℝ) (k : ℕ)
+    (hJ : ∀ i : Fin m, J wrt i k = (M *ᵥ ((toM n (st.form (γ s0)).op)⁻¹ *ᵥ (b' - A' *ᵥ toV n (u s0)))) i)
+    (dir : Vec ℝ) :
+    ∃ g, gradientFunc m ⟨none, some J⟩ dir wrt = .ok g
+      ∧ HasDerivAt (fun s => ∑ i : Fin m, dir i * (M *ᵥ toV n (u s)) i) (g k) s0 := by
+  refine ⟨_, rfl, ?_⟩
+  rw [vecMul_eq, ← Fin.sum_univ_eq_sum_range (fun i => dir i * J wrt i k) m]
+  refine HasDerivAt.fun_sum fun i _ => ?_
+  rw [hJ i]
+  exact (steady_observed_sensitivity n m st hs γ s0 u info hsolve A' b' hA hb hdet M i).const_mul (dir i)
+
+/-- a correct 1×1 solver over ℝ (the real-number twin of `divSolver`) -/
+noncomputable def realDivSolver (A : Mat ℝ) (b : Vec ℝ) : SolverRet (Vec ℝ) ℝ :=
+  if A 0 0 = 0 then .raised else .tuple (fun _ => b 0 / A 0 0) [b 0]
+
+lemma realDivSolver_correct : SolverCorrect 1 realDivSolver := by
+  intro A b x info h i hi
+  have hi0 : i = 0 := by omega
+  subst hi0
+  unfold realDivSolver at h
+  split at h
+  · simp [unpack] at h
+  · rename_i hA
+    simp only [unpack, Except.ok.injEq, Prod.mk.injEq] at h
+    obtain ⟨hx, _⟩ := h
+    subst hx
+    simp
+    field_simp
+
+/-- non-vacuity: `A(p) = p`, `b = 6`, so `u(p) = 6/p`; at `p = 2` the formula gives
+    `A⁻¹(b' − A' u) = (1/2)(0 − 1·3) = −3/2 = d(6/p)/dp` -/
+example : HasDerivAt (fun s : ℝ => (6 : ℝ) / s) (-3 / 2) 2 := by
+  let st : Steady ℝ ℝ ℝ := { form := fun p => ⟨fun _ _ => p, fun _ => 6⟩, solver := realDivSolver }
+  have hsolve : ∀ᶠ s in nhds (2 : ℝ), (st.assemble (id s)).solve = .ok ((fun _ => 6 / s : Vec ℝ), some [(6 : ℝ)]) := by
+    have : ∀ᶠ s in nhds (2 : ℝ), s ≠ 0 := continuousAt_id.eventually_ne (by norm_num)
+    filter_upwards [this] with s hs
+    simp [st, Steady.assemble, Steady.solve, realDivSolver, unpack, hs]
+  have h := steady_sensitivity 1 st realDivSolver_correct id 2 (fun s _ => 6 / s) (fun _ => some [6]) hsolve
+    !![1] ![0] (fun i j => by simpa [st] using hasDerivAt_id' (2 : ℝ)) (fun i => by simpa [st] using hasDerivAt_const (2 : ℝ) (6 : ℝ))
+    (by simp [st, toM, Matrix.det_fin_one]) 0
+  convert h using 1
+  simp [st, toM, toV, Matrix.mulVec, dotProduct, Matrix.inv_def, Matrix.det_fin_one, Matrix.adjugate_fin_one]
+  norm_num
+
+end sensitivity
+
+/-! ## 4. the time-dependent pipeline of `PDEModel.forward`, spelled out -/
+
+section timepipe
+variable {P : Type} [DecidableEq R]
+
+/-- levels (level `k` = column `k` of `u`) to the 2-D array `u` by rows (space) × columns (time) — the
+    driver's `levelsToU` for an arbitrary ring -/
+def levelsToRows (n : ℕ) (levels : List (Array R)) : List (List R) :=
+  (List.range n).map fun i => levels.map fun u => rd u i
+
+/-- the `TimeDependentLinearPDE` object inside a `PDEModel`, as the driver builds it (op `pipet`; this
+    is that definition for an arbitrary ring and parameter type); `tobs` is the resolved `_time_obs` -/
+def timePDE {I : Type} (n : ℕ) (m : Method) (formP : P → R → Form R)
+    (solver : Mat R → Vec R → SolverRet (Vec R) I) (ts : List R) (g : Grids R) (tobs : List R)
+    (interp : List R → List R → List (List R) → List R → List R → Except Err (List (List R)))
+    (om : ObsMap R) : PDEObj P (List (List R)) (Arr R) I :=
+  { solveFor := fun x => (solveTime n m (formP x) solver ts).map fun r => (levelsToRows n r.1, r.2)
+    observe := fun U => observeTime g ts tobs U interp om }
+
+/-- entry (node `i`, time index `j`) of the solution array is entry `i` of level `j` -/
+lemma levelsToRows_entry (n : ℕ) (levels : List (Array R)) (i j : ℕ) (hi : i < n) (hj : j < levels.length) :
+    ((levelsToRows n levels).getD i []).getD j 0 = rd (levels.getD j #[]) i := by
+  simp [levelsToRows, List.getD_eq_getElem?_getD, hi, hj]
+
+lemma lastCol_levelsToRows (n : ℕ) (levels : List (Array R)) (hl : levels ≠ []) :
+    lastCol (levelsToRows n levels) = .ok (vecL n (rd (levels.getD (levels.length - 1) #[]))) := by
+  obtain ⟨ys, y, rfl⟩ : ∃ ys y, levels = ys ++ [y] := ⟨_, _, (List.dropLast_append_getLast hl).symm⟩
+  have hlast : (ys ++ [y]).getD ((ys ++ [y]).length - 1) #[] = y := by
+    simp [List.getD_eq_getElem?_getD]
+  rw [hlast]
+  simp only [lastCol, levelsToRows, vecL]
+  generalize List.range n = idx
+  induction idx with
+  | nil => rfl
+  | cons a idx ih =>
+    simp only [List.map_cons, List.mapM_cons, List.map_append, List.getLast?_append, List.getLast?_singleton,
+      List.map_nil, Option.some_or] at ih ⊢
+    rw [ih]
+    rfl
+
+/-- **time_pipeline_spelled_out.**  `PDEModel.forward(x)` for a time-dependent PDE is: assemble the
+    parameter, run the time loop of the chosen method over the whole grid, drop `info`, lay the
+    levels out as the space × time array, and hand that to `observe` (restriction/interpolation,
+    observation map, `squeeze` iff one observation time); a refusal of the solve is passed on. -/
+theorem time_pipeline_spelled_out {I : Type} (n : ℕ) (m : Method) (formP : P → R → Form R)
+    (solver : Mat R → Vec R → SolverRet (Vec R) I) (ts : List R) (g : Grids R) (tobs : List R)
+    (interp : List R → List R → List (List R) → List R → List R → Except Err (List (List R)))
+    (om : ObsMap R) (x : P) :
+    pdeModelForward (timePDE n m formP solver ts g tobs interp om) x =
+      match solveTime n m (formP x) solver ts with
+      | .error e => .error e
+      | .ok (levels, _) => observeTime g ts tobs (levelsToRows n levels) interp om := by
+  simp only [pdeModelForward, timePDE]
+  cases solveTime n m (formP x) solver ts with
+  | error e => rfl
+  | ok r => rfl
+
+/-- **time_pipeline_final_is_last_level.**  On the no-interpolation branch (`time_obs='final'` with
+    equal grids) the restricted solution handed to the observation map is exactly the level with the
+    last index, `u[:, len(time_steps) − 1]`. -/
+theorem time_pipeline_final_is_last_level {I : Type} (n : ℕ) (m : Method) (form : R → Form R)
+    (solver : Mat R → Vec R → SolverRet (Vec R) I) (ts : List R) (g : Grids R) (tobs : List R)
+    (interp : List R → List R → List (List R) → List R → List R → Except Err (List (List R)))
+    (levels : List (Array R)) (info : Option (List I))
+    (hsolve : solveTime n m form solver ts = .ok (levels, info))
+    (hb : branchTime g ts tobs 2 = .direct) :
+    preObserveTime g ts tobs (levelsToRows n levels) interp
+      = .ok (.vec (vecL n (rd (levels.getD (ts.length - 1) #[])))) := by
+  have hlen := levels_length n m form solver ts levels info hsolve
+  have hne : levels ≠ [] := by
+    intro h0
+    rw [h0] at hlen
+    cases ts with
+    | nil => simp [solveTime] at hsolve
+    | cons a l => simp at hlen
+  simp only [preObserveTime, hb, lastCol_levelsToRows n levels hne, hlen]
+  rfl
+
+/-- **time_pipeline_observed_column_is_level.**  On the interpolation branch (any interpolant that
+    reproduces its data): if observation time number `b` is the grid time with index `j`
+    (`time_obs[b] = time_steps[j]`) and observation node `a` is solution node `i`, then entry
+    `(a, b)` of the pre-map observation is entry `i` of **level `j`** of the time loop — observed
+    column `b` carries the level index of `time_obs[b]`, whatever the order or multiplicity of the
+    requested times. -/
+theorem time_pipeline_observed_column_is_level {I : Type} (n : ℕ) (m : Method) (form : R → Form R)
+    (solver : Mat R → Vec R → SolverRet (Vec R) I) (ts : List R) (g : Grids R) (gs go : List R)
+    (hs : g.sol = some gs) (ho : g.obs = some go) (tobs : List R)
+    (interp : List R → List R → List (List R) → List R → List R → Except Err (List (List R)))
+    (hI : Reproduces interp) (levels : List (Array R)) (info : Option (List I))
+    (hsolve : solveTime n m form solver ts = .ok (levels, info))
+    (hb : branchTime g ts tobs 2 = .interp) (arr : Arr R)
+    (hpre : preObserveTime g ts tobs (levelsToRows n levels) interp = .ok arr) :
+    ∃ W, arr = .mat W ∧ ∀ a b i j x t, go[a]? = some x → gs[i]? = some x → tobs[b]? = some t →
+      ts[j]? = some t → i < n → (W.getD a []).getD b 0 = rd (levels.getD j #[]) i := by
+  obtain ⟨W, hW, hrep⟩ := observe_coinciding g gs go hs ho ts tobs hb _ interp hI arr hpre
+  refine ⟨W, hW, ?_⟩
+  intro a b i j x t ha hi hb' hj hin
+  have hjlt : j < levels.length := by
+    rw [levels_length n m form solver ts levels info hsolve]
+    by_contra hc
+    simp [List.getElem?_eq_none (Nat.le_of_not_lt hc)] at hj
+  rw [hrep a b i j x t ha hi hb' hj, levelsToRows_entry n levels i j hin hjlt]
+
+/-- **time_obs_all_columns_are_levels.**  `time_obs='all'` (any case) resolves to the time grid itself,
+    and then observed column `j` is level `j`, for every `j`: at an observation node that is
+    solution node `i`, `W[a][j] = u_j[i]`. -/
+theorem time_obs_all_columns_are_levels {I : Type} (n : ℕ) (m : Method) (form : R → Form R)
+    (solver : Mat R → Vec R → SolverRet (Vec R) I) (ts : List R) (g : Grids R) (gs go : List R)
+    (hs : g.sol = some gs) (ho : g.obs = some go)
+    (interp : List R → List R → List (List R) → List R → List R → Except Err (List (List R)))
+    (hI : Reproduces interp) (levels : List (Array R)) (info : Option (List I))
+    (hsolve : solveTime n m form solver ts = .ok (levels, info)) :
+    ∃ tobs, resolveTimeObs ts (.str "all") = .ok tobs ∧ tobs = ts ∧
+      ∀ arr, branchTime g ts tobs 2 = .interp →
+        preObserveTime g ts tobs (levelsToRows n levels) interp = .ok arr →
+        ∃ W, arr = .mat W ∧ ∀ a i x j, go[a]? = some x → gs[i]? = some x → i < n → j < ts.length →
+          (W.getD a []).getD j 0 = rd (levels.getD j #[]) i := by
+  refine ⟨ts, by simp [resolveTimeObs], rfl, ?_⟩
+  intro arr hb hpre
+  obtain ⟨W, hW, hcol⟩ := time_pipeline_observed_column_is_level n m form solver ts g gs go hs ho ts interp hI
+    levels info hsolve hb arr hpre
+  refine ⟨W, hW, ?_⟩
+  intro a i x j ha hi hin hj
+  exact hcol a j i j x ts[j] ha hi (List.getElem?_eq_getElem hj) (List.getElem?_eq_getElem hj) hin
+
+/-! ### non-vacuity of section 4 -/
+
+/-- an interpolant satisfying `Reproduces` on *all* inputs: the driver's leaf-data interpolant,
+    refusing grids with repeated nodes / times (as scipy does) -/
+def guardedInterp (W : List (List R)) (gs steps : List R) (U : List (List R)) (go tobs : List R) :
+    Except Err (List (List R)) :=
+  if gs.Nodup ∧ steps.Nodup then tableInterp2 W gs steps U go tobs else .error .interpError
+
+lemma guardedInterp_reproduces (W : List (List R)) : Reproduces (guardedInterp W) := by
+  intro gs steps U go tobs V h
+  unfold guardedInterp at h
+  split at h
+  · rename_i hn
+    exact tableInterp2_reproduces W gs steps hn.1 hn.2 U go tobs V h
+  · cases h
+
+/-- two nodes `0, 1`, observation at node `1` only (so the grids differ and the interpolation branch is
+    taken), `time_obs='all'` on the grid `0, 1/4, 1/2, 3/4`: entry `j` of the single observed row is
+    entry 1 of level `j` of the forward loop -/
+example : ∃ levels, solveTime 2 .forward heatForm divSolver (uniformGrid 0 (1/4) 3) = .ok (levels, none) ∧
+    ∀ arr, preObserveTime (Grids.init (some [0, 1]) (some [1])) (uniformGrid 0 (1/4) 3) (uniformGrid 0 (1/4) 3)
+        (levelsToRows 2 levels) (guardedInterp []) = .ok arr →
+      ∃ W, arr = .mat W ∧ ∀ j, j < 4 → (W.getD 0 []).getD j 0 = rd (levels.getD j #[]) 1 := by
+  obtain ⟨levels, h⟩ := solveTime_forward_ok 2 heatForm divSolver _ (uniformGrid_ne_nil 0 (1/4) 3)
+  refine ⟨levels, h, fun arr hpre => ?_⟩
+  obtain ⟨tobs, -, rfl, hall⟩ := time_obs_all_columns_are_levels 2 .forward heatForm divSolver
+    (uniformGrid 0 (1/4) 3) (Grids.init (some [0, 1]) (some [1])) [0, 1] [1] rfl rfl (guardedInterp [])
+    (guardedInterp_reproduces []) levels none h
+  have hbr : branchTime (Grids.init (some [0, 1]) (some [1] : Option (List ℚ))) (uniformGrid 0 (1/4) 3)
+      (uniformGrid 0 (1/4) 3) 2 = .interp := by
+    simp [branchTime, Grids.init, Grids.setSol, Grids.setObs, compareGrid]
+  obtain ⟨W, hW, hcol⟩ := hall arr hbr hpre
+  exact ⟨W, hW, fun j hj => hcol 0 1 1 j rfl rfl (by norm_num) (by simpa using hj)⟩
+
+/-- `time_obs='final'` on equal grids: the observed vector is the level of index `len(ts) − 1 = 3` -/
+example : ∃ levels, solveTime 2 .forward heatForm divSolver (uniformGrid 0 (1/4) 3) = .ok (levels, none) ∧
+    preObserveTime (Grids.init (some [0, 1]) none) (uniformGrid 0 (1/4) 3) [3/4]
+        (levelsToRows 2 levels) (guardedInterp []) = .ok (.vec (vecL 2 (rd (levels.getD 3 #[])))) := by
+  obtain ⟨levels, h⟩ := solveTime_forward_ok 2 heatForm divSolver _ (uniformGrid_ne_nil 0 (1/4) 3)
+  refine ⟨levels, h, ?_⟩
+  have hbr : branchTime (Grids.init (some [0, 1]) (none : Option (List ℚ))) (uniformGrid 0 (1/4) 3) [3/4] 2 = .direct := by
+    rw [direct_branch_iff]
+    refine ⟨(grid_obs_defaults_to_grid_sol _).2, ?_⟩
+    rw [allFinal_iff]
+    refine ⟨3/4, ?_, by simp⟩
+    norm_num [uniformGrid, List.range, List.range.loop]
+  simpa using time_pipeline_final_is_last_level 2 .forward heatForm divSolver (uniformGrid 0 (1/4) 3) _ [3/4]
+    (guardedInterp []) levels none h hbr
+
+end timepipe
+
+/-! ### linearity of the whole time-dependent pipeline (no-interpolation branch, `u ↦ M @ u`) -/
+
+section timelinear
+variable {P : Type} [AddCommMonoid P] [Module R P] [DecidableEq R]
+
+/-- the final `squeeze()` of `observe`: applied iff there is exactly one observation time -/
+def finalSqueeze (tobs : List R) (b : Arr R) : Arr R := if tobs.length = 1 then squeeze b else b
+
+/-- the pipeline on the no-interpolation branch with the observation map `u ↦ M @ u` -/
+lemma time_pipeline_direct_left {I : Type} (n : ℕ) (m : Method) (formP : P → R → Form R)
+    (solver : Mat R → Vec R → SolverRet (Vec R) I) (ts : List R) (g : Grids R) (tobs : List R)
+    (interp : List R → List R → List (List R) → List R → List R → Except Err (List (List R)))
+    (M : List (List R)) (hM : ∀ r ∈ M, r.length = n) (hb : branchTime g ts tobs 2 = .direct)
+    (x : P) (levels : List (Array R)) (info : Option (List I))
+    (hsolve : solveTime n m (formP x) solver ts = .ok (levels, info)) :
+    pdeModelForward (timePDE n m formP solver ts g tobs interp (.left M)) x
+      = .ok (finalSqueeze tobs (.vec (M.map fun r => ldot r (vecL n (rd (levels.getD (ts.length - 1) #[])))))) := by
+  have hall : M.all (fun r => r.length == (vecL n (rd (levels.getD (ts.length - 1) #[]))).length) = true := by
+    simp only [List.all_eq_true, vecL_length, beq_iff_eq]
+    exact hM
+  rw [time_pipeline_spelled_out, hsolve]
+  simp only [observeTime, time_pipeline_final_is_last_level n m (formP x) solver ts g tobs interp levels info hsolve hb,
+    ObsMap.apply, hall, if_true, finalSqueeze]
+
+/-- **forward_time_pipeline_linear.**  `PDEModel.forward` of a linear time-dependent PDE (forward
+    method, final-time observation on the solution grid, observation map `u ↦ M @ u`) is a linear map of
+    the parameter: the returned arrays satisfy `forward(c·p + q) = c·forward(p) + forward(q)` entry by
+    entry (`finalSqueeze` is the same final `squeeze()` in all three calls). -/
+theorem forward_time_pipeline_linear {I : Type} (n : ℕ) (formP : P → R → Form R) (hlin : LinearInParam n formP)
+    (solver : Mat R → Vec R → SolverRet (Vec R) I) (ts : List R) (hts : ts ≠ []) (g : Grids R) (tobs : List R)
+    (interp : List R → List R → List (List R) → List R → List R → Except Err (List (List R)))
+    (M : List (List R)) (hM : ∀ r ∈ M, r.length = n) (hb : branchTime g ts tobs 2 = .direct)
+    (c : R) (p q : P) :
+    ∃ yp yq : List R,
+      pdeModelForward (timePDE n .forward formP solver ts g tobs interp (.left M)) p = .ok (finalSqueeze tobs (.vec yp))
+      ∧ pdeModelForward (timePDE n .forward formP solver ts g tobs interp (.left M)) q = .ok (finalSqueeze tobs (.vec yq))
+      ∧ pdeModelForward (timePDE n .forward formP solver ts g tobs interp (.left M)) (c • p + q)
+          = .ok (finalSqueeze tobs (.vec (List.zipWith (fun a b => c * a + b) yp yq)))
+      ∧ yp.length = M.length ∧ yq.length = M.length := by
+  obtain ⟨L1, h1⟩ := solveTime_forward_ok n (formP (c • p + q)) solver ts hts
+  obtain ⟨L2, h2⟩ := solveTime_forward_ok n (formP p) solver ts hts
+  obtain ⟨L3, h3⟩ := solveTime_forward_ok n (formP q) solver ts hts
+  have hpos : 0 < ts.length := List.length_pos_iff.mpr hts
+  have hlinu : vecL n (rd (L1.getD (ts.length - 1) #[]))
+      = List.zipWith (fun a b => c * a + b) (vecL n (rd (L2.getD (ts.length - 1) #[]))) (vecL n (rd (L3.getD (ts.length - 1) #[]))) := by
+    rw [← vecL_lincomb]
+    exact vecL_congr n _ _ fun i hi =>
+      forward_levels_linear n formP hlin solver ts c p q L1 L2 L3 none none none h1 h2 h3 _ (by omega) i hi
+  refine ⟨_, _, time_pipeline_direct_left n .forward formP solver ts g tobs interp M hM hb p L2 none h2,
+    time_pipeline_direct_left n .forward formP solver ts g tobs interp M hM hb q L3 none h3, ?_, by simp, by simp⟩
+  rw [time_pipeline_direct_left n .forward formP solver ts g tobs interp M hM hb _ L1 none h1, hlinu,
+    map_ldot_lincomb M c _ _ (by simp)]
+
+/-- **backward_time_pipeline_linear.**  Same for the backward method (correct solver, uniquely solvable
+    step systems, the three solves accepted). -/
+theorem backward_time_pipeline_linear {I : Type} (n : ℕ) (formP : P → R → Form R) (hlin : LinearInParam n formP)
+    (solver : Mat R → Vec R → SolverRet (Vec R) I) (hs : SolverCorrect n solver) (ts : List R)
+    (g : Grids R) (tobs : List R)
+    (interp : List R → List R → List (List R) → List R → List R → Except Err (List (List R)))
+    (M : List (List R)) (hM : ∀ r ∈ M, r.length = n) (hb : branchTime g ts tobs 2 = .direct)
+    (c : R) (p q : P)
+    (hns : ∀ k, k + 1 < ts.length →
+      Nonsing n (bwdMat (ts.getD (k + 1) 0 - ts.getD k 0) (formP p (ts.getD (k + 1) 0))))
+    (hok : ∀ x, ∃ L info, solveTime n .backward (formP x) solver ts = .ok (L, info)) :
+    ∃ yp yq : List R,
+      pdeModelForward (timePDE n .backward formP solver ts g tobs interp (.left M)) p = .ok (finalSqueeze tobs (.vec yp))
+      ∧ pdeModelForward (timePDE n .backward formP solver ts g tobs interp (.left M)) q = .ok (finalSqueeze tobs (.vec yq))
+      ∧ pdeModelForward (timePDE n .backward formP solver ts g tobs interp (.left M)) (c • p + q)
+          = .ok (finalSqueeze tobs (.vec (List.zipWith (fun a b => c * a + b) yp yq)))
+      ∧ yp.length = M.length ∧ yq.length = M.length := by
+  obtain ⟨L1, j1, h1⟩ := hok (c • p + q)
+  obtain ⟨L2, j2, h2⟩ := hok p
+  obtain ⟨L3, j3, h3⟩ := hok q
+  have hpos : 0 < ts.length := by
+    cases ts with
+    | nil => simp [solveTime] at h1
+    | cons a l => simp
+  have hlinu : vecL n (rd (L1.getD (ts.length - 1) #[]))
+      = List.zipWith (fun a b => c * a + b) (vecL n (rd (L2.getD (ts.length - 1) #[]))) (vecL n (rd (L3.getD (ts.length - 1) #[]))) := by
+    rw [← vecL_lincomb]
+    exact vecL_congr n _ _ fun i hi =>
+      backward_levels_linear n formP hlin solver hs ts c p q hns L1 L2 L3 j1 j2 j3 h1 h2 h3 _ (by omega) i hi
+  refine ⟨_, _, time_pipeline_direct_left n .backward formP solver ts g tobs interp M hM hb p L2 j2 h2,
+    time_pipeline_direct_left n .backward formP solver ts g tobs interp M hM hb q L3 j3 h3, ?_, by simp, by simp⟩
+  rw [time_pipeline_direct_left n .backward formP solver ts g tobs interp M hM hb _ L1 j1 h1, hlinu,
+    map_ldot_lincomb M c _ _ (by simp)]
+
+example (c : ℚ) (p q : Fin 2 → ℚ) :
+    let ts : List ℚ := uniformGrid 0 (1/4) 3
+    let g : Grids ℚ := Grids.init (some [0, 1]) none
+    let pde := timePDE 2 .forward linHeatForm divSolver ts g [3/4] (guardedInterp []) (.left [[1, 1], [0, 3]])
+    ∃ yp yq : List ℚ,
+      pdeModelForward pde p = .ok (finalSqueeze [3/4] (.vec yp))
+      ∧ pdeModelForward pde q = .ok (finalSqueeze [3/4] (.vec yq))
+      ∧ pdeModelForward pde (c • p + q) = .ok (finalSqueeze [3/4] (.vec (List.zipWith (fun a b => c * a + b) yp yq)))
+      ∧ yp.length = 2 ∧ yq.length = 2 := by
+  intro ts g pde
+  have hbr : branchTime g ts [3/4] 2 = .direct := by
+    rw [direct_branch_iff]
+    refine ⟨(grid_obs_defaults_to_grid_sol _).2, ?_⟩
+    rw [allFinal_iff]
+    refine ⟨3/4, ?_, by simp⟩
+    norm_num [ts, uniformGrid, List.range, List.range.loop]
+  exact forward_time_pipeline_linear 2 linHeatForm linHeatForm_linear divSolver ts (uniformGrid_ne_nil _ _ _) g [3/4]
+    (guardedInterp []) [[1, 1], [0, 3]] (by simp) hbr c p q
+
+end timelinear
+
 /-! ## 5. `method` strings: the case-variant names
 
 `Method.ofString` (Model/C18) validates with core `String.toLower`, which does not reduce by
@@ -403,5 +1167,127 @@ example : ∃ m, Method.ofString "Forward_Euler" = some m
     ∧ solveTime 1 m decayForm divSolver [0, 1/2, 2] = .error .unboundLocal :=
   method_case_variant_refused "Forward_Euler" (by decide) (by decide) (by decide) 1 decayForm divSolver _
     (by simp)
+
+/-! ## 6. convergence to the ODE solution (scalar test equation, over ℝ)
+
+What the closed forms are *for*: on the uniform grid of `N` steps over `[0, T]` the final level of
+either method tends to the exact solution `u0·e^{λT}` of `u' = λu`, `u(0) = u0`, as `N → ∞`. -/
+
+section convergence
+open Filter Topology
+
+/-- **forward_euler_converges.**  The last forward-Euler level on `np.linspace(0, T, N+1)` tends to
+    `u0·exp(λT)` as the number of steps grows (any `λ`, `T`, `u0` in ℝ). -/
+theorem forward_euler_converges {I : Type} (form : ℝ → Form ℝ)
+    (solver : Mat ℝ → Vec ℝ → SolverRet (Vec ℝ) I) (lam u0 T : ℝ)
+    (hform : ∀ t, (form t).op 0 0 = lam ∧ (form t).src 0 = 0 ∧ (form t).ic 0 = u0) :
+    Tendsto (fun N : ℕ => levelOf (solveTime 1 .forward form solver (uniformGrid 0 (T / N) N)) N 0)
+      atTop (𝓝 (u0 * Real.exp (lam * T))) := by
+  have hval : ∀ N : ℕ, levelOf (solveTime 1 .forward form solver (uniformGrid 0 (T / N) N)) N 0
+      = (1 + lam * T / N) ^ N * u0 := by
+    intro N
+    obtain ⟨L, hL⟩ := solveTime_forward_ok 1 form solver _ (uniformGrid_ne_nil (0 : ℝ) (T / N) N)
+    simp only [hL, levelOf]
+    rw [forward_test_equation_levels form solver _ L none hL (T / N) lam (uniformGrid_uniform _ _ _)
+      (fun _ _ => (hform _).1) (fun _ _ => (hform _).2.1) N (by simp),
+      level_zero_ic 1 _ form solver _ L none hL 0 (by norm_num), (hform _).2.2]
+    congr 2
+    ring
+  simp only [hval]
+  rw [mul_comm u0]
+  exact (Real.tendsto_one_add_div_pow_exp (lam * T)).mul_const u0
+
+/-- **backward_euler_converges.**  Same for the backward method with a correct solver (the solves
+    being accepted from some `N` on; no sign condition on `λ`). -/
+theorem backward_euler_converges {I : Type} (form : ℝ → Form ℝ)
+    (solver : Mat ℝ → Vec ℝ → SolverRet (Vec ℝ) I) (hs : SolverCorrect 1 solver) (lam u0 T : ℝ)
+    (hform : ∀ t, (form t).op 0 0 = lam ∧ (form t).src 0 = 0 ∧ (form t).ic 0 = u0)
+    (hok : ∀ᶠ N : ℕ in atTop, ∃ L info, solveTime 1 .backward form solver (uniformGrid 0 (T / N) N) = .ok (L, info)) :
+    Tendsto (fun N : ℕ => levelOf (solveTime 1 .backward form solver (uniformGrid 0 (T / N) N)) N 0)
+      atTop (𝓝 (u0 * Real.exp (lam * T))) := by
+  have hlim : Tendsto (fun N : ℕ => u0 / (1 + -(lam * T) / N) ^ N) atTop (𝓝 (u0 / Real.exp (-(lam * T)))) :=
+    tendsto_const_nhds.div (Real.tendsto_one_add_div_pow_exp (-(lam * T))) (Real.exp_ne_zero _)
+  have hgoal : u0 * Real.exp (lam * T) = u0 / Real.exp (-(lam * T)) := by
+    rw [Real.exp_neg, div_inv_eq_mul]
+  rw [hgoal]
+  refine hlim.congr' ?_
+  have hpos : ∀ᶠ N : ℕ in atTop, (1 + -(lam * T) / N) ^ N ≠ 0 := by
+    have : ∀ᶠ N : ℕ in atTop, (0 : ℝ) < (1 + -(lam * T) / N) ^ N :=
+      (Real.tendsto_one_add_div_pow_exp (-(lam * T))).eventually (lt_mem_nhds (Real.exp_pos _))
+    exact this.mono fun N h => ne_of_gt h
+  filter_upwards [hok, hpos] with N hN hne
+  obtain ⟨L, info, hL⟩ := hN
+  simp only [hL, levelOf]
+  have h1 := backward_test_equation_levels form solver hs _ L info hL (T / N) lam (uniformGrid_uniform _ _ _)
+    (fun _ _ => (hform _).1) (fun _ _ => (hform _).2.1) N (by simp)
+  rw [level_zero_ic 1 _ form solver _ L info hL 0 (by norm_num), (hform _).2.2] at h1
+  have h2 : (1 - T / N * lam : ℝ) = 1 + -(lam * T) / N := by ring
+  rw [h2] at h1
+  rw [div_eq_iff hne]
+  linear_combination (-1 : ℝ) * h1
+
+/-- the backward loop returns as soon as no step's solve is refused -/
+lemma bwdLevels_ok {I : Type} (n : ℕ) (form : R → Form R) (solver : Mat R → Vec R → SolverRet (Vec R) I) :
+    ∀ (rest : List R) (t : R) (u : Array R),
+      (∀ k, k < rest.length → ∀ b, ∃ x info,
+        unpack (solver (bwdMat ((t :: rest).getD (k + 1) 0 - (t :: rest).getD k 0) (form ((t :: rest).getD (k + 1) 0))) b)
+          = .ok (x, info)) →
+      ∃ steps, bwdLevels n form solver t u rest = .ok steps := by
+  intro rest
+  induction rest with
+  | nil => intro t u _; exact ⟨[], rfl⟩
+  | cons t' rest ih =>
+    intro t u h
+    obtain ⟨x, info, hx⟩ := h 0 (by simp) (bwdRhs (t' - t) (form t') (rd u))
+    obtain ⟨tail, htail⟩ := ih t' (tab n x) (fun k hk b => by simpa using h (k + 1) (by simpa using hk) b)
+    refine ⟨(tab n x, info) :: tail, ?_⟩
+    simp only [bwdLevels]
+    simp only [List.getD_cons_succ, List.getD_cons_zero] at hx
+    rw [hx]
+    simp only [htail]
+
+/-- the backward method returns as soon as the grid has at least two levels and no step's solve is refused -/
+lemma solveTime_backward_ok {I : Type} (n : ℕ) (form : R → Form R) (solver : Mat R → Vec R → SolverRet (Vec R) I)
+    (ts : List R) (hlen : 2 ≤ ts.length)
+    (h : ∀ k, k + 1 < ts.length → ∀ b, ∃ x info,
+      unpack (solver (bwdMat (ts.getD (k + 1) 0 - ts.getD k 0) (form (ts.getD (k + 1) 0))) b) = .ok (x, info)) :
+    ∃ L info, solveTime n .backward form solver ts = .ok (L, info) := by
+  cases ts with
+  | nil => simp at hlen
+  | cons t0 rest =>
+    obtain ⟨steps, hsteps⟩ := bwdLevels_ok n form solver rest t0 (tab n (form t0).ic)
+      (fun k hk b => h k (by simpa using hk) b)
+    have hl := bwdLevels_length n form solver rest t0 _ steps hsteps
+    have hne : steps ≠ [] := by
+      intro h0
+      rw [h0] at hl
+      simp at hlen hl
+      omega
+    obtain ⟨ys, y, rfl⟩ : ∃ ys y, steps = ys ++ [y] := ⟨_, _, (List.dropLast_append_getLast hne).symm⟩
+    exact ⟨tab n (form t0).ic :: (ys ++ [y]).map (·.1), y.2, by simp [solveTime, hsteps]⟩
+
+/-- the test equation `u' = -3u`, `u(0) = 4` over ℝ -/
+noncomputable def testFormR (_ : ℝ) : Form ℝ := ⟨fun _ _ => -3, fun _ => 0, fun _ => 4⟩
+
+example : Tendsto (fun N : ℕ => levelOf (solveTime 1 .forward testFormR realDivSolver (uniformGrid 0 ((1 : ℝ) / N) N)) N 0)
+    atTop (𝓝 (4 * Real.exp (-3 * 1))) :=
+  forward_euler_converges testFormR realDivSolver (-3) 4 1 (fun _ => ⟨rfl, rfl, rfl⟩)
+
+example : Tendsto (fun N : ℕ => levelOf (solveTime 1 .backward testFormR realDivSolver (uniformGrid 0 ((1 : ℝ) / N) N)) N 0)
+    atTop (𝓝 (4 * Real.exp (-3 * 1))) := by
+  refine backward_euler_converges testFormR realDivSolver realDivSolver_correct (-3) 4 1 (fun _ => ⟨rfl, rfl, rfl⟩) ?_
+  filter_upwards [eventually_ge_atTop 1] with N hN
+  have hne : ((1 : ℝ) - 1 / N * (-3)) ≠ 0 := by
+    have : (0 : ℝ) ≤ 1 / N := by positivity
+    nlinarith
+  refine solveTime_backward_ok 1 testFormR realDivSolver _ (by simp; omega) ?_
+  intro k hk b
+  rw [uniformGrid_uniform (0 : ℝ) (1 / N) N k hk]
+  have hm : bwdMat ((1 : ℝ) / N) (testFormR ((uniformGrid (0 : ℝ) (1 / N) N).getD (k + 1) 0)) 0 0 ≠ 0 := by
+    simpa [bwdMat, eye, testFormR] using hne
+  simp only [realDivSolver, if_neg hm, unpack]
+  exact ⟨_, _, rfl⟩
+
+end convergence
 
 end CuqiVerif.C18
